@@ -84,6 +84,38 @@ structure ROut where
   nasync : Nat
   released : List Nat
 
+/-- `InitializeParams() != nil` of session `i` -/
+def wasInitialized (s : State) (i : Nat) : Bool :=
+  match findSess i s.tbl with
+  | some e => e.initialized
+  | none => false
+
+/-- the handler of a POST that is answered at once runs to completion (if the message was delivered) -/
+def runHandler (st1 : State) (i : Nat) (k : Kind) (deliver : Bool) : State :=
+  match k with
+  | .init => if deliver then doL st1 (.handlerDone i true) else st1
+  | .badInit | .call => if deliver then doL st1 (.handlerDone i false) else st1
+  | .notif => st1
+
+/-- the handler invocations of a POST on a stateful endpoint that is answered at once -/
+def postLog (nm : Name) (user : UserTok) (kind : PKind) (deliver creator : Bool) : List LogEnt :=
+  match kind with
+  | .init => if deliver then [⟨nm, .tok user, .initialize⟩] else []
+  | .ping => if deliver then [⟨nm, .tok user, .ping⟩] else []
+  | .notif => if deliver && !creator then [⟨nm, .tok user, .initialized⟩] else []
+  | _ => []
+
+def postStatus (kind : PKind) : St :=
+  match kind with
+  | .notif => .code 202
+  | _ => .code 200
+
+/-- only the answer to an `initialize` carries the `Mcp-Session-Id` header -/
+def postHdr (kind : PKind) (hdrN : Option Name) : Option Name :=
+  match kind with
+  | .init | .badinit => hdrN
+  | _ => none
+
 /-- the asynchronous request that occupies handler slot `k` -/
 def slotIs (k : Nat) (p : Pend) : Bool :=
   match p.kind with
@@ -139,26 +171,15 @@ def modelOp (d : RState) (op : Op) : Option ROut :=
       else
         let i := sid.getD st.next
         let creator := sid.isNone
-        let wasInit := match findSess i st.tbl with | some e => e.initialized | none => false
+        let wasInit := wasInitialized st i
         let nm := sname i
         if slow && deliver && wasInit then
           some { base with st := st1, status := .pending, log := [⟨nm, .tok user, .toolsCall⟩],
                            pend := d.pend ++ [⟨tag, .slow (some i) nslow⟩] }
         else
-          let st2 := match k with
-            | .init => if deliver then doL st1 (.handlerDone i true) else st1
-            | .badInit | .call => if deliver then doL st1 (.handlerDone i false) else st1
-            | .notif => st1
-          let st3 := doL st2 (.postEnd (some i) creator)
-          let log : List LogEnt := match kind with
-            | .init => if deliver then [⟨nm, .tok user, .initialize⟩] else []
-            | .ping => if deliver then [⟨nm, .tok user, .ping⟩] else []
-            | .notif => if deliver && !creator then [⟨nm, .tok user, .initialized⟩] else []
-            | _ => []
-          match kind with
-          | .notif => some { base with st := st3, status := .code 202, log := log }
-          | .init | .badinit => some { base with st := st3, status := .code 200, hdr := hdrN, log := log }
-          | _ => some { base with st := st3, status := .code 200, log := log }
+          let st3 := doL (runHandler st1 i k deliver) (.postEnd (some i) creator)
+          some { base with st := st3, status := postStatus kind, hdr := postHdr kind hdrN,
+                           log := postLog nm user kind deliver creator }
     | some _ => none
   | .postx user kind =>
     let u := user.user
